@@ -1461,18 +1461,26 @@ def explain(case, failure):
         return []
 
     def recv_in_poke(path, idx):
-        """a child-level edit below the sender (path, idx) that no later assignment of the sender -- or of a
-        channel forwarding into it -- has overwritten again (C09_sync_down_partial: such an assignment
-        re-synchronises the whole chain)"""
-        below = [(json.dumps(p), k) for p, k in down_chain(d, path, idx)]
-        last_poke = max([u for u, o in enumerate(before) if o[0] == "in" and (json.dumps(o[1]), o[2]) in below], default=None)
+        """position-aware cause predicate of S14 (input side) for the pair (macro input (path, idx), the child
+        channel R it is linked to), looking only at the operations up to the failing step: some earlier
+        operation assigned R itself (the receiving side), and nothing after THAT assignment has
+        re-synchronised the pair -- neither an assignment of the sender or of a channel forwarding into it
+        (C09_sync_down_partial), nor a replacement of the node that owns R (its links are re-forged with the
+        sender's value; replacing a node further down re-forges other links, not this one)"""
+        chain = down_chain(d, path, idx)
+        if not chain:
+            return False
+        rp, rk = chain[0]
+        rkey = (json.dumps(rp), rk)
+        last_poke = max([u for u, o in enumerate(before) if o[0] == "in" and (json.dumps(o[1]), o[2]) == rkey], default=None)
         if last_poke is None:
             return False
         for o in before[last_poke + 1:]:
-            if o[0] == "replace" and any(json.dumps(q) == json.dumps(o[1]) for q, _ in down_chain(d, path, idx)):
-                return False                   # the links of a replaced child are re-forged with the sender's value
+            if o[0] == "replace" and json.dumps(o[1]) == json.dumps(rp):
+                return False
             for p, k in sets(o):
-                if (p, k) == (path, idx) or (json.dumps(path), idx) in [(json.dumps(q), kk) for q, kk in down_chain(d, p, k)]:
+                if (json.dumps(p), k) == (json.dumps(path), idx) or \
+                        (json.dumps(path), idx) in [(json.dumps(q), kk) for q, kk in down_chain(d, p, k)]:
                     return False
         return True
 
